@@ -917,8 +917,9 @@ def skeleton_upj(case):
     }
 
 
-# universes of the TLC-enumerated skeletons: (names, kinds, feature sets, max items).  The first one is
-# also the universe of the T1 design check.
+# universes of the TLC-enumerated skeletons: (names, kinds, feature sets, max items); T1_Q / T1_T: the universe
+# of the T1 design check (quick: a sub-universe of FAM_Q[0]; thorough: FAM_T[0])
+T1_Q = (["a", "A", "a_0", "a b", "1", "and", "start", ""], ["object", "action", "param"], [[], ["temporal"]], 2)
 KINDS4 = ["object", "fluent", "action", "param"]
 FAM_Q = [(["a", "A", "a_0", "a b", "a_b", "1", "o_1", "and", "start", "", "total-cost"], KINDS4, [[], ["temporal"]], 2)]
 FAM_T = [(["a", "A", "a_", "a_0", "A_0", "a b", "a-b", "a_b", "1", "o_1", "and", "AND", "and_", "start", "", "total-cost"], KINDS4,
@@ -1084,15 +1085,18 @@ def run(ctx):
     t1_notes = []
     nontrivial = 0
     n_enum = 0
-    toucher = skeleton_upj({"feats": ["temporal"], "items": []})
-    toucher2 = skeleton_upj({"feats": ["traj"], "items": []})
+    # the problem written before a skeleton in the 2-step histories: temporal AND with a trajectory constraint
+    toucher = skeleton_upj({"feats": ["temporal", "traj"], "items": []})
     env = {"KW": kwpath}
+    t1u = T1_Q if (q and scale >= 1) else fams[0]
     for fi, (unames, ukinds, featsets, mi) in enumerate(fams):
         unipath = os.path.join(d0, "univ%d.json" % fi)
         tlc.write_json(unipath, {"names": [cp(n) for n in unames], "kinds": ukinds, "feats": featsets})
-        envf = {"KW": kwpath, "UNIV": unipath}
-        # ---- T1: design check (first universe) ---------------------------------------------
+        # ---- T1: design check --------------------------------------------------------------
         if fi == 0 and not os.environ.get("C38_SKIP_T1"):  # (development knob: T1 does not touch the implementation)
+            t1path = os.path.join(d0, "univT1.json")
+            tlc.write_json(t1path, {"names": [cp(n) for n in t1u[0]], "kinds": t1u[1], "feats": t1u[2]})
+            envf = {"KW": kwpath, "UNIV": t1path}
             for lang, alias, anch, label, invs in T1_RUNS:
                 cfg = T1_CFG % {"alias": alias, "anch": anch, "mi": 2, "lang": lang, "invs": "\n".join("INVARIANT " + i for i in invs)}
                 res = tlc.run_tlc("RenamerImpl", cfg, ctx.sub("t1"), env=envf, timeout=3000, coverage=(label == "repaired"))
@@ -1122,6 +1126,7 @@ def run(ctx):
                 else:
                     t1_notes.append({"lang": lang, "holds_as_written": [i for i in invs]})
         # ---- T2: TLC-enumerated skeletons on the real writers --------------------------------
+        envf = {"KW": kwpath, "UNIV": unipath}
         d = ctx.sub("enum%d" % fi)
         out = os.path.join(d, "cases.ndjson")
         e2 = dict(envf)
@@ -1138,7 +1143,7 @@ def run(ctx):
         for i, c in enumerate(cases):
             P = skeleton_upj(c)
             desc = {"skeleton": [[x["kind"], uncp(x["orig"])] for x in c["items"]], "feats": c["feats"]}
-            pre = toucher if "temporal" not in c["feats"] else toucher2
+            pre = toucher
             for mode in (["reload", "fresh"] if i in sample else ["reload"]):
                 for lang in ("pddl", "anml"):
                     pl.add(lang, ("s", fi, i), [{"op": "write", "P": P}], mode, desc)
@@ -1201,14 +1206,14 @@ def run(ctx):
     ctx.cov["outcomes"] = stats
     ctx.cov["t1_as_written_counterexamples"] = t1_notes
     ctx.cov["rule"] = (
-        "T1: exhaustive BFS of RenamerImpl (as written and repaired) over the skeletons of <= 2 items of the first universe %r, "
+        "T1: exhaustive BFS of RenamerImpl (as written and repaired) over the skeletons of <= 2 items of the universe %r, "
         "with the real keyword sets. T2: every skeleton of the universes %r (names, kinds, feature sets, max items) emitted by TLC "
         "(RenamerEnum), built as a real problem, written by both writers on first use, and by PDDLWriter after a writer "
         "for a temporal (or constrained) problem; first use = reloaded writer modules, and for a sample a new process. "
         "T3: %d seeded G2 problems (classical with metrics, state invariants / "
         "trajectory constraints, temporal) with identifiers substituted from adversarial pools (case variants, keywords, "
         "symbols, unicode, leading digits, mangled forms, empty-ish), each written on first use and after another problem. "
-        "A case is counted non-trivial when some element had to be renamed." % (fams[0][0], fams, len(corpus))
+        "A case is counted non-trivial when some element had to be renamed." % (t1u[:3], fams, len(corpus))
     )
     ctx.cov["exhaustive"] = True
     ctx.assumptions += [
@@ -1293,7 +1298,7 @@ def replay(ctx, rec):
     inp = d.get("input") or {}
     if "skeleton" in inp:
         P = skeleton_upj({"feats": inp["feats"], "items": [{"kind": k, "orig": cp(n)} for k, n in inp["skeleton"]]})
-        pre = skeleton_upj({"feats": ["temporal"] if "temporal" not in inp["feats"] else ["traj"], "items": []})
+        pre = skeleton_upj({"feats": ["temporal", "traj"], "items": []})
     elif "problem" in inp:
         P, pre = inp["problem"], inp.get("written_before")
     else:
